@@ -38,7 +38,7 @@ func fileClass(p string) string {
 		return "manifest (*.snp)"
 	case strings.HasSuffix(b, ".snp.tmp"):
 		return "manifest tmp (*.snp.tmp)"
-	case b == "metadata.json" || b == "tag.type" || b == "smeta.bin":
+	case b == "metadata.json" || b == "manifest.json" || b == "tag.type" || b == "smeta.bin":
 		return b
 	case strings.HasSuffix(b, ".tmp"):
 		return b
@@ -53,7 +53,13 @@ func fileClass(p string) string {
 // atomicOnly are the files that must only ever appear by rename of a synced tmp sibling.
 func atomicOnly(p string) bool {
 	b := baseOf(p)
-	return strings.HasSuffix(b, ".snp") || b == "metadata.json" || b == "tag.type" || b == "smeta.bin"
+	return strings.HasSuffix(b, ".snp") || commitRecord(b) || b == "tag.type" || b == "smeta.bin"
+}
+
+// commitRecord: the file whose atomic appearance commits a part directory (measure/stream: metadata.json, sidx:
+// manifest.json).
+func commitRecord(base string) bool {
+	return base == "metadata.json" || base == "manifest.json"
 }
 
 // nextEffect returns the index of the first op after k that is not open/close/mark (and not one of skip kinds).
@@ -128,9 +134,9 @@ func traceInvariants(ops []crashfs.Op, counts map[string]int) []traceViolation {
 		op := ops[k]
 		segmentTrace(fs, op, counts, func(key, detail string) { bad(k, key, detail) })
 		if (op.Kind == "write" || (op.Kind == "open" && op.Flags&os.O_CREATE != 0)) && committed[dirOf(op.Path)] {
-			bad(k, fmt.Sprintf("T8 %s is created or written after the part's commit record metadata.json is in place", fileClass(op.Path)), op.Path)
+			bad(k, fmt.Sprintf("T8 %s is created or written after the part's commit record is in place", fileClass(op.Path)), op.Path)
 		}
-		if op.Kind == "rename" && baseOf(op.Path2) == "metadata.json" {
+		if op.Kind == "rename" && commitRecord(baseOf(op.Path2)) {
 			counts["T8_parts_committed"]++
 			committed[dirOf(op.Path2)] = true
 		}
@@ -190,7 +196,7 @@ func traceInvariants(ops []crashfs.Op, counts map[string]int) []traceViolation {
 					counts["T4_parts_checked"]++
 					hasMeta := false
 					for _, f := range files {
-						if f == "metadata.json" {
+						if commitRecord(f) {
 							hasMeta = true
 						}
 						if _, ex, cl := fs.DurableFile(pd + "/" + f); !ex || !cl {
@@ -198,7 +204,7 @@ func traceInvariants(ops []crashfs.Op, counts map[string]int) []traceViolation {
 						}
 					}
 					if !hasMeta {
-						bad(k, "T4 manifest published before metadata.json of a part it names exists", pd)
+						bad(k, "T4 manifest published before the commit record (metadata.json / manifest.json) of a part it names exists", pd)
 					}
 				}
 			}
